@@ -1,5 +1,6 @@
 package main
 
 import (
+	_ "verif/harness/c11"
 	_ "verif/harness/c17"
 )
